@@ -1,2 +1,108 @@
-/-! stub: replaced by the Steps group driver -/
-def main : IO Unit := pure ()
+import MesaModel.Model.StepCounter
+/-!
+Line-protocol driver of the step-counter model (C05).  Producer: harness/c05.py.
+
+  scenario steps
+  class <lvl> <lvl> …      a Model subclass chain, most derived class first; <lvl> = 3 bits
+                           overrides/callsSuper/takesArgs (e.g. 110); `class -` = `mesa.Model` itself
+                           → ok class=K
+  new c stopAt             instantiate class c; its bodies clear `running` at the stopAt-th execution
+                           → ok inst=K …
+  step i a1 a2 …           model_i.step(a1, a2, …)
+  run i                    model_i.run_model()
+  rearm i k                model_i.running = True; stop k body executions from now
+  halt i                   model_i.running = False
+Every answer carries the counters of all instances: `… || steps=1,0,3 running=1,1,0`.
+-/
+open Mesa.Steps
+
+def words (s : String) : List String := (s.splitOn " ").filter (· ≠ "")
+
+def parseLevel (s : String) : Option Level :=
+  match s.toList with
+  | [a, b, c] =>
+    let bit := fun (ch : Char) => if ch = '1' then some true else if ch = '0' then some false else none
+    do pure { overrides := ← bit a, callsSuper := ← bit b, takesArgs := ← bit c }
+  | _ => none
+
+structure St where
+  classes : List Hier
+  insts : List Inst
+
+def fmtEntry (e : Entry) : String :=
+  s!"{e.depth}@{e.steps}" ++ (if e.args.isEmpty then "" else "/" ++ ".".intercalate (e.args.map toString))
+
+def fmtAll (w : List Inst) : String :=
+  s!"steps={",".intercalate (w.map (toString ·.steps))} running={",".intercalate (w.map fun i => if i.running then "1" else "0")}"
+
+def fuel : Nat := 100000
+
+def stepLine (st : St) (ws : List String) : St × String :=
+  let bad := (st, "bad-op")
+  match ws with
+  | ["scenario", "steps"] => ({ classes := [], insts := [] }, "ok")
+  | "class" :: lv =>
+    match (if lv = ["-"] then some [] else lv.mapM parseLevel) with
+    | some h => ({ st with classes := st.classes ++ [h] }, s!"ok class={st.classes.length}")
+    | none => bad
+  | ["new", c, k] =>
+    match c.toNat?, k.toNat? with
+    | some c, some k =>
+      match st.classes[c]? with
+      | some h =>
+        let w := st.insts ++ [Inst.new h k]
+        ({ st with insts := w }, s!"ok inst={st.insts.length} || {fmtAll w}")
+      | none => bad
+    | _, _ => bad
+  | "step" :: i :: args =>
+    match i.toNat?, args.mapM (·.toInt?) with
+    | some i, some args =>
+      match st.insts[i]? with
+      | some x =>
+        let r := callStep x args
+        let w := apply st.insts (.step i args)
+        ({ st with insts := w },
+         (if r.2.2 then "ok" else "err Type") ++ s!" log={",".intercalate (r.2.1.map fmtEntry)} || {fmtAll w}")
+      | none => bad
+    | _, _ => bad
+  | ["run", i] =>
+    match i.toNat? with
+    | some i =>
+      match st.insts[i]? with
+      | some x =>
+        match runModel fuel x with
+        | some (_, es) =>
+          let w := apply st.insts (.run i fuel)
+          ({ st with insts := w }, s!"ok log={",".intercalate (es.map fmtEntry)} || {fmtAll w}")
+        | none => (st, "err Fuel")
+      | none => bad
+    | none => bad
+  | ["rearm", i, k] =>
+    match i.toNat?, k.toNat? with
+    | some i, some k =>
+      if i < st.insts.length then
+        let w := apply st.insts (.rearm i k)
+        ({ st with insts := w }, s!"ok || {fmtAll w}")
+      else bad
+    | _, _ => bad
+  | ["halt", i] =>
+    match i.toNat? with
+    | some i =>
+      if i < st.insts.length then
+        let w := apply st.insts (.halt i)
+        ({ st with insts := w }, s!"ok || {fmtAll w}")
+      else bad
+    | none => bad
+  | _ => bad
+
+partial def loop (h : IO.FS.Stream) (out : IO.FS.Stream) (st : St) : IO Unit := do
+  let line ← h.getLine
+  if line.isEmpty then return ()
+  let (st', o) := stepLine st (words line.trimAscii.toString)
+  out.putStrLn o
+  loop h out st'
+
+def main : IO Unit := do
+  let out ← IO.getStdout
+  loop (← IO.getStdin) out { classes := [], insts := [] }
+  out.flush
